@@ -150,6 +150,15 @@ def small_table_text(rng):
         n[0] += 1
         return "sw%dq" % n[0]
 
+    if rng.random() < 0.1:
+        # a 2 x 2 table of the class that the cleaner lays out column by column (split_table_to_columns), far enough from the start
+        # of the article not to be taken for an infobox: the table goes and the order becomes column-wise by design, the words
+        # (the caption's too) stay - only that is asked of this shape
+        lines = [" ".join(w() for _ in range(45)), "", '{| class="mp-upper"']
+        if rng.random() < 0.7:
+            lines.append("|+ " + w())
+        lines += ["| " + w() + " || " + w(), "|-", "| " + w() + " || " + w(), "|}", "", w(), ""]
+        return "\n".join(lines)
     rows, cols = rng.choice([(1, 1), (1, 2), (1, 3), (2, 1), (3, 1), (1, 1), (2, 1)])
     container = rng.random() < 0.15         # a one-cell table that only wraps a 2 x 2 table (with or without a caption of its own)
     if container:
@@ -192,6 +201,8 @@ def worker(items, extra, progress):
             if isinstance(seed, (tuple, list)):        # ("small", seed): a table below 2 x 2
                 text = small_table_text(random.Random(seed[1]))
                 why, stats = check_text(text), {"small-tables": 1}
+                if why and 'class="mp-upper"' in text and "reading order changed" in why:
+                    why = None      # column-wise order is what split_table_to_columns is for
             else:
                 why, text, stats = check_doc(seed)
         except Exception as e:  # noqa: BLE001
